@@ -14,6 +14,21 @@ theorem segments_partition (slots : List Slot) (off n : Nat) :
     Chain off (segs slots 0 off n) n ∧ SlotPiecesOk slots (segs slots 0 off n) :=
   ⟨segs_chain slots 0 off n, segs_slotPiecesOk slots off n⟩
 
+/-- **Pieces go where they belong, along every history.** Start from a state whose window list is ascending
+    with disjoint address ranges and mapped as far as the file reaches (true of a freshly opened file) and run any
+    history (private windows, failed calls, growth, shrinking, adding and removing windows included): the window list
+    keeps that shape, and for every request the pieces sent through the *file* never touch the mapped part of any
+    window — so a read through the file can never miss bytes that live only in a (private) mapping, and a write
+    through the file can never be shadowed by one. Together with `segments_partition` (window pieces lie inside
+    their window) every byte of a request takes the one path that is right for it. -/
+theorem file_pieces_avoid_windows (st : St) (ops : List Op) (h : WInv st.slots st.fsize) (off n : Nat) :
+    WInv (run st ops).1.slots (run st ops).1.fsize ∧
+    ∀ g ∈ segs (run st ops).1.slots 0 off n, g.slot = none → ∀ s ∈ (run st ops).1.slots, Avoids g s :=
+  ⟨run_WInv ops st h, segs_file_avoids _ _ 0 off n (run_WInv ops st h)⟩
+
+/-- non-vacuity: the empty window list of a freshly opened file satisfies `WInv` -/
+example : WInv ({ psize := 4096, cbuf := 4096 } : St).slots 0 := ⟨List.Pairwise.nil, by simp⟩
+
 /-- **Shared windows refine one flat byte array.** Starting from any state whose windows are all shared,
     every history of write / read / copy / truncate / ensure_size / add (shared) / remove window / store
     through a mapping / remap_all gives exactly the results (return codes, bytes read) and the final state
